@@ -251,3 +251,31 @@ def r2_band_leg(run, tmp):
         if worst > 5e-3:
             run.fail(case, f'R2 band at {where[:2]} holds {where[3]:.4f}, the R2 of gain*source+offset over the {where[4]} jointly valid '
                      f'pixels of its window is {where[2]:.4f}', signature=dict(kind='r2-band'))
+    # a reference that is constant over whole kernel windows (a saturated patch) under a textured source: the total sum of
+    # squares is 0, the residual is not - R2 is -inf, a *valid* pixel of the parameter image (nodata is NaN): the R2 band is valid
+    # wherever both images are, like the other two bands
+    for k, model in enumerate(['gain', 'gain-blk-offset']):
+        rng = run.rng(f'r2flat{k}')
+        H, W = 16, 18
+        g = rasters.Grid(8 * 3100 + 8 * k, 8 * 4100, 8, 8, W, H)
+        s = np.array([[[rng.randint(20, 120) for _ in range(W)] for _ in range(H)]], float)
+        r = np.array([[[rng.randint(30, 90) for _ in range(W)] for _ in range(H)]], float)
+        r[0, 4:12, 5:14] = 150.0
+        sv = np.ones((H, W), bool)
+        sv[0, :] = False
+        pair = fusion.write_pair(tmp, f'c14flat{k}', g, g, s, r, sv, None)
+        case = dict(i=700_100 + k, op='R2 band validity, flat reference patch', model=model, kernel=(3, 3), shape=(H, W))
+        try:
+            res = fusion.run_fuse(pair.src_path, pair.ref_path, tmp / 'c14flat_out.tif', model=model, kernel_shape=(3, 3), param=True, threads=1)
+        except Exception as ex:
+            run.fail(case, f'fusion raised {type(ex).__name__}: {ex}', signature=dict(kind='raises'))
+            continue
+        run.evaluations += 1
+        run.hist['R2-band validity on a flat reference patch'] += 1
+        run.nontrivial.add(('r2flat', k))
+        r2v = ~np.isnan(res.param[2])
+        if not np.array_equal(r2v, sv):
+            d = np.argwhere(r2v != sv)
+            run.fail(case, f'the R2 band is {"invalid" if sv[tuple(d[0])] else "valid"} at {len(d)} processing pixels where both images are '
+                     f'{"valid" if sv[tuple(d[0])] else "not valid"}, e.g. {d[0].tolist()} (reference constant over the kernel window: R2 = -inf is a value)',
+                     signature=dict(kind='param-mask', band='r2'))
